@@ -3,7 +3,7 @@ import RattrDriver.C06
 import RattrModel.ResultsProject
 
 namespace Rattr.Driver.C14
-open Lean Rattr Rattr.Driver Rattr.Results Rattr.Project
+open Lean Rattr Rattr.Driver Rattr.Results Rattr.ResProject
 
 def parseTarget (j : Json) : R CallTarget := do
   match (← asStr (← field j "k")) with
